@@ -103,7 +103,7 @@ class Runner:
                 tuple(b.get("libs", ["-lrapidcheck", "-lpthread"])), self.log)
 
     # -- violation bookkeeping --------------------------------------------
-    def confirm(self, binary, candidate, why, accept=("fail", "crash", "timeout"), timeout=120):
+    def confirm(self, binary, candidate, why, accept=("fail", "crash", "timeout"), timeout=120, binkey=None):
         """Replay a candidate 3x in fresh processes; only a reproducible failure is a violation."""
         if len(self.violations) >= 3:   # enough replays to act on; do not spend minutes confirming more
             self.extra_failures = getattr(self, "extra_failures", 0) + 1
@@ -112,7 +112,16 @@ class Runner:
         with open(candidate, "rb") as f:
             data = f.read()
         dest = os.path.join(self.found_dir, hashlib.sha256(data).hexdigest()[:16] + ".json")
-        shutil.copyfile(candidate, dest)
+        try:
+            obj = json.loads(data)
+            if "case" not in obj:
+                obj = {"property": self.pid, "why": why, "case": obj}
+            if binkey:
+                obj["bin"] = binkey
+            with open(dest, "w") as f:
+                json.dump(obj, f)
+        except Exception:
+            shutil.copyfile(candidate, dest)
         from concurrent.futures import ThreadPoolExecutor
         with ThreadPoolExecutor(3) as ex:
             res = list(ex.map(lambda _: run_replay(binary, dest, self.env, timeout), range(3)))
@@ -160,7 +169,9 @@ class Runner:
         for part in self.cfg["parts"]:
             if part.get("kind") == "fuzz":
                 continue
-            binary = self.bins[part.get("bin", next(iter(self.bins)))]
+            binkey = part.get("bin", next(iter(self.bins)))
+            binary = self.bins[binkey]
+            pname = part.get("part", part["name"])     # harness-side part name (several bins may share it)
             workers = part["workers"][tier]
             if workers <= 0:
                 continue
@@ -171,16 +182,16 @@ class Runner:
                 fail = os.path.join(self.work, tag + ".fail.json")
                 env = dict(self.env)
                 if part.get("kind") == "enum":
-                    cmd = [binary, "--enumerate", "--part", part["name"], "--shard", "%d/%d" % (w, workers),
+                    cmd = [binary, "--enumerate", "--part", pname, "--shard", "%d/%d" % (w, workers),
                            "--out", out, "--fail", fail]
                 else:
                     s = seed_for(self.seed, part["name"], w)
                     env["RC_PARAMS"] = "seed=%d max_success=%d max_size=%d max_discard_ratio=1000" % (
                         s, part["cases"][tier], part.get("max_size", 100))
-                    cmd = [binary, "--run", "--part", part["name"], "--out", out, "--scratch", scratch, "--fail", fail]
+                    cmd = [binary, "--run", "--part", pname, "--out", out, "--scratch", scratch, "--fail", fail]
                 logf = open(os.path.join(self.work, tag + ".log"), "w")
                 p = subprocess.Popen(cmd, stdout=logf, stderr=subprocess.STDOUT, env=env)
-                procs.append(dict(p=p, part=part, tag=tag, out=out, scratch=scratch, fail=fail, binary=binary, log=logf.name))
+                procs.append(dict(p=p, part=part, tag=tag, out=out, scratch=scratch, fail=fail, binary=binary, binkey=binkey, log=logf.name))
         budget = self.cfg.get("timeout", {}).get(tier, 900 if tier == "quick" else 7200)
         deadline = time.time() + budget
         hang_s = self.cfg.get("hang_s", 60)
@@ -249,12 +260,12 @@ class Runner:
             if rc == "hang":
                 # one case has been running for > hang_s seconds (normal: milliseconds): confirm by replay
                 self.confirm(pr["binary"], pr["scratch"], "operation did not return within the hang limit",
-                             accept=("timeout",), timeout=self.cfg.get("hang_s", 60))
+                             accept=("timeout",), timeout=self.cfg.get("hang_s", 60), binkey=pr["binkey"])
                 continue
             if rc == 1 and os.path.exists(pr["fail"]):
                 with open(pr["fail"]) as f:
                     why = json.load(f).get("why", "")
-                self.confirm(pr["binary"], pr["fail"], why)
+                self.confirm(pr["binary"], pr["fail"], why, binkey=pr["binkey"])
                 continue
             if rc == 3:
                 with open(pr["log"]) as f:
@@ -269,7 +280,7 @@ class Runner:
                     if "ERROR: AddressSanitizer" in line or "runtime error:" in line or "ThreadSanitizer" in line or "Assertion" in line:
                         sig = line.strip()[:300]
                         break
-                self.confirm(pr["binary"], pr["scratch"], sig)
+                self.confirm(pr["binary"], pr["scratch"], sig, binkey=pr["binkey"])
             else:
                 agg["inconclusive"].append("%s: exited with %s and left no case" % (pr["tag"], rc))
         return agg
